@@ -11,7 +11,7 @@ from __future__ import annotations
 
 import ast
 
-from ..core import AnalysisError, const_value, norm, walk_own, walk_stmts
+from ..core import same_func, AnalysisError, const_value, norm, walk_own, walk_stmts
 from ..paths import enum_paths
 from . import sort_common as sc
 from . import c09
@@ -33,6 +33,7 @@ def check(ctx):
     ctx.run(r10_1, m)
     ctx.run(r10_2, m)
     ctx.run(r10_3, m)
+    ctx.run(r10_4, m)
     ctx.run(c09.r09_3, m)  # the index is keyed by the record's sn: which contig a record belongs to is decided as in C09
     ctx.not_decided.append("BGZF virtual offsets produced by tell() in write mode resolve on read across blocks (pysam's contract)")
     # mechanisms this property rests on (see shared.py): a change there is reported here as well
@@ -335,3 +336,50 @@ def r10_3(ctx, m):
         d = [st for st in walk_stmts(cf.node.body) if isinstance(st, ast.Assign) and norm(st.targets[0]) == dv]
         ok = len(d) == 1 and norm(d[0].value).replace(" ", "") == "defaultdict(lambda:[None,None])"
         ctx.check(ok, "R10.3", cf.where(), "index entries start as [None, None] (fresh list per contig)", key_of(cf, f"index-default:{[norm(x.value) for x in d]}"))
+
+
+def r10_4(ctx, m):
+    """The positions recorded are positions in the output file itself: the handle whose tell() feeds the index is opened on
+    the output path (not on a temporary file that is converted / compressed / renamed into the output afterwards: a byte
+    position in a plain temporary file is not a BGZF virtual offset of the compressed output)."""
+    from ..core import desugar_ifexp
+
+    repo = ctx.repo
+    f = m.f
+    callers = repo.callers_of(f)
+    if len(callers) != 1 or m.writer not in f.params:
+        raise AnalysisError("R10.4", f.where(), "cannot find the one caller that hands the output handle to the sort function")
+    cf, call = callers[0]
+    cf = desugar_ifexp(cf)
+    call = next((c for c in walk_own(cf.node) if isinstance(c, ast.Call) and repo.resolve_call(cf, c) is not None and same_func(repo.resolve_call(cf, c), f)), None)
+    widx = f.params.index(m.writer)
+    if call is None or widx >= len(call.args) or not isinstance(call.args[widx], ast.Name):
+        raise AnalysisError("R10.4", cf.where(), "cannot map the output handle argument of the sort call")
+    wv = call.args[widx].id
+    out_param = next((p_ for p_ in cf.params if "out" in p_ and "ind" not in p_), None)
+    if out_param is None:
+        raise AnalysisError("R10.4", cf.where(), "cannot identify the output path parameter of the entry point")
+    paths = enum_paths(cf.node.body, rule="R10.4", where=cf.where())
+    n = 0
+    bad = None
+    for p in paths:
+        env = {}
+        for e in p.events:
+            if e.kind != "stmt" or not isinstance(e.node, ast.Assign) or len(e.node.targets) != 1 or not isinstance(e.node.targets[0], ast.Name):
+                continue
+            tgt = e.node.targets[0].id
+            v = e.node.value
+            if tgt == wv and isinstance(v, ast.Call) and v.args and (norm(v.func) == "open" or norm(v.func).endswith("BGZFile")):
+                a = v.args[0]
+                for _ in range(4):
+                    if isinstance(a, ast.Name) and a.id in env:
+                        a = env[a.id]
+                n += 1
+                if norm(a) != out_param:
+                    bad = (p, f"the handle `{wv}` whose positions are indexed is opened on `{norm(a)}`, not on the output path `{out_param}`")
+            env[tgt] = v
+        if bad:
+            break
+    ctx.check(bad is None, "R10.4", cf.where(call), "the handle whose tell() feeds the index is opened on the output path itself (no temporary file that is compressed or renamed into the output afterwards)", key_of(cf, f"indexed-handle-path:{bad[1] if bad else ''}"), **({"path": bad[0].show(), "why": bad[1]} if bad else {"openers": n}))
+    if bad is None and n == 0:
+        raise AnalysisError("R10.4", cf.where(), f"cannot find where the output handle `{wv}` is opened")
